@@ -202,9 +202,15 @@ impl<L: LanguageChildren> LanguageChildren for Bind<L> {
 
     fn weak_shape_impl(&mut self, m: &mut (SlotMap, u32)) {
         let s = self.slot;
+        // the same name can occur free earlier in the e-node: that numbering is shadowed inside
+        // the binder's scope only.
+        let shadowed = m.0.get(s);
         add_slot(&mut self.slot, m);
         self.elem.weak_shape_impl(m);
-        m.0.remove(s);
+        match shadowed {
+            Some(outer) => m.0.insert(s, outer),
+            None => m.0.remove(s),
+        }
     }
 }
 
